@@ -9,6 +9,7 @@ EXTENDS Gossip
 CONSTANT MaxMsgs
 
 MCNext == \/ nmsg < MaxMsgs /\ \E m \in Universe : Recv(m)
+          \/ nmsg < MaxMsgs /\ \E z \in ZOUniverse : Zombify(z.c, z.signer)
           \/ \E c \in Chans : \E i \in 1..Len(stash[c]) : ReplayOne(c, i)
 MCSpec == Init /\ [][MCNext]_vars
 
@@ -17,5 +18,5 @@ MCSpec == Init /\ [][MCNext]_vars
 (* index, and a second copy of a message can never do more than the first   *)
 (* (it is stale, rejected or kept-alive for the same reason).               *)
 MCView == <<chans, pol, nodes, [c \in Chans |-> {stash[c][i] : i \in 1..Len(stash[c])}],
-            zombie, closed, rejects, nmsg>>
+            zombie, zkeys, closed, rejects, nmsg>>
 =============================================================================
